@@ -544,6 +544,18 @@ def c06_gen(r, tier):
     for rules in ([fan, fan], [one, tru], [fan, one, fan, tru]):
         for perm in ([0, 1] if len(rules) == 2 else [0, 1, 2, 3], [1, 0] if len(rules) == 2 else [3, 1, 2, 0]):
             yield {"schema": {"rules": copy.deepcopy(rules)}, "doc": enc({"a": [1, 2, 0], "b": "x"}), "perm": perm}
+    # long schemas (5..9 rules) in which exactly one late rule fails, or all but one late rule are untested: an aggregate that
+    # looks at the first few rule tests only (DESIGN 13.29; the deductive half states these aggregates for any number)
+    okr = {"path": {"parts": [{"$prim": "b"}]}, "cond": G.leaf("Value", "equal_to", "x")}
+    gone = {"path": {"parts": [{"$prim": "zz"}]}, "cond": G.leaf("Value", "equal_to", 1)}
+    for k in (5, 6, 9):
+        for pos in (k - 1, 4):
+            for base, odd in ((okr, one), (gone, okr), (gone, one)):
+                rules = [copy.deepcopy(base) for _ in range(k)]
+                rules[pos] = copy.deepcopy(odd)
+                idx = list(range(k))
+                for perm in (idx, idx[::-1]):
+                    yield {"schema": {"rules": rules}, "doc": enc({"a": [1, 2, 0], "b": "x"}), "perm": perm}
     # rules whose paths differ only in the type of a numerically equal part (1 / 1.0 / True; an explicit map key 0 vs the bare
     # 0 that is an index in a list): different nodes, judged independently, also with rules beneath them
     gt = G.leaf("Value", "greater_than", 15)
